@@ -21,6 +21,7 @@ from .commons import (
     xml2dict,
     get_format,
     Field,
+    in_scale,
 )
 
 
@@ -284,6 +285,7 @@ GM                   = {gm:11.4f} [km**3/s**2]
             else:
                 date = man.date
                 duration = 0
+            date = in_scale(date, cart.date.scale)
 
             text += """{comment}
 MAN_EPOCH_IGNITION   = {date:{dfmt}}
@@ -408,6 +410,7 @@ def _dumps_xml(data, *, kep=True, **kwargs):
             else:
                 date = man.date
                 duration = 0
+            date = in_scale(date, cart.date.scale)
 
             man_epoch = ET.SubElement(mans, "MAN_EPOCH_IGNITION")
             man_epoch.text = date.strftime(DATE_FMT_DEFAULT)
